@@ -5,6 +5,7 @@
  * byte offset in the slab).  Every live block carries a canary over its full REQUESTED size. */
 #include "mpool.c"
 #include "qthread/qpool.h"
+#include "qthread/qthread.h"
 #include <stdio.h>
 #include <string.h>
 #include <unistd.h>
@@ -145,7 +146,7 @@ static held_t *volatile slots[NSLOT];
 static struct { int pid, nops, hold; uint64_t seed; } st;
 static volatile uint64_t st_serial, st_allocs, st_frees, st_errs, st_xfer;
 static char              st_msg[256];
-static volatile int      st_go;
+static volatile int      st_go, st_rt;
 
 static uint64_t sm64(uint64_t *s)
 {
@@ -175,7 +176,7 @@ static void *stress_thread(void *arg)
     qt_mpool  pool = pools[st.pid];
     held_t  **held = calloc(st.hold, sizeof(held_t *));
     int       nh   = 0;
-    while (!st_go) sched_yield();
+    while (!st_go && !st_rt) sched_yield();
     for (int op = 0; op < st.nops; op++) {
         uint64_t r = sm64(&rs);
         int      c = r % 100;
@@ -201,13 +202,16 @@ static void *stress_thread(void *arg)
             __sync_fetch_and_add(&st_xfer, 1);
             if (o) held[k] = o; else held[k] = held[--nh];
         }
-        if ((r >> 48) % 64 == 0) sched_yield();
+        if (st_rt) { if ((r >> 48) % 8 == 0) qthread_yield(); }      /* tasks change worker at yields / steals */
+        else if ((r >> 48) % 64 == 0) sched_yield();
     }
     while (nh) st_release(pool, held[--nh]);
-    tcs[st.pid][me] = pthread_getspecific(pool->threadlocal_cache);
+    if (!st_rt) tcs[st.pid][me] = pthread_getspecific(pool->threadlocal_cache);
     free(held);
     return NULL;
 }
+
+static aligned_t stress_task(void *arg) { stress_thread(arg); return 0; }
 
 /* end-of-run audit of the free structures: every slab item must be free exactly once */
 static void audit(qt_mpool pool, int nthreads, size_t *total, size_t *dups, size_t *bad)
@@ -306,6 +310,24 @@ int main(void)
             st_go = 1;
             for (unsigned long t = 0; t < b; t++) pthread_join(th[t], NULL);
             for (int s = 0; s < NSLOT; s++) if (slots[s]) st_release(pools[a], slots[s]);   /* main thread frees the leftovers */
+            audit(pools[a], (int)b, &total, &dups, &bad);
+            printf("M allocs=%llu frees=%llu xfer=%llu slabs=%zu ipa=%zu free_items=%zu dups=%zu bad=%zu errs=%llu %s\n",
+                   (unsigned long long)st_allocs, (unsigned long long)st_frees, (unsigned long long)st_xfer, slab_count(pools[a]),
+                   pools[a]->items_per_alloc, total, dups, bad, (unsigned long long)st_errs, st_msg[0] ? st_msg : "-");
+        } else if (line[0] == 'R' && sscanf(line + 1, "%lu %lu %lu %lu %lu", &a, &b, &c, &d, &e) == 5 && a < MAXP && pools[a] && b >= 1 && b <= 64) {
+            /* R pid ntasks nops hold seed : the same stress from qthread tasks inside a live runtime */
+            static int inited = 0;
+            static aligned_t rets[64];
+            size_t    total, dups, bad;
+            alarm(120);
+            if (!inited) { if (qthread_initialize() != 0) { printf("R init-failed\n"); continue; } inited = 1; }
+            st.pid = (int)a; st.nops = (int)c; st.hold = (int)d; st.seed = e;
+            st_serial = st_allocs = st_frees = st_errs = st_xfer = 0; st_go = 1; st_rt = 1; st_msg[0] = 0;
+            memset((void *)slots, 0, sizeof slots);
+            for (unsigned long t = 0; t < b; t++) qthread_fork_to(stress_task, (void *)(intptr_t)t, &rets[t], t % qthread_num_shepherds());
+            for (unsigned long t = 0; t < b; t++) qthread_readFF(NULL, &rets[t]);
+            st_rt = 0;
+            for (int s = 0; s < NSLOT; s++) if (slots[s]) st_release(pools[a], slots[s]);
             audit(pools[a], (int)b, &total, &dups, &bad);
             printf("M allocs=%llu frees=%llu xfer=%llu slabs=%zu ipa=%zu free_items=%zu dups=%zu bad=%zu errs=%llu %s\n",
                    (unsigned long long)st_allocs, (unsigned long long)st_frees, (unsigned long long)st_xfer, slab_count(pools[a]),
